@@ -325,3 +325,36 @@ Proof.
   induction l as [|[o cur] l IH]; simpl; intros prev H; [exact I|].
   apply andb_true_iff in H as [H1 H2]. split; [apply Pb_step_sound; exact H1 | apply IH; exact H2].
 Qed.
+
+(* ================================================================ histories with a persistent Votes store *)
+
+(** One observed step = (operation, observation, Votes store after it).  [cast] = the votes submitted
+    since the last vote-period end, tracked by the specification itself (not read from the
+    implementation): misses, reward weights and payouts of a period are judged against the votes of THAT
+    period only, and no vote may survive a period end. *)
+Definition P_hstep12 (q : oparams) (prev : sobs) (cast : list avote) (o : op) (cur : sobs) (vs : list avote) : Prop :=
+  P_step q prev (eff_op cast o) cur /\ (so_panic cur = false -> vs = next_store q cast o).
+
+Fixpoint P_history12 (q : oparams) (prev : sobs) (cast : list avote) (l : list (op * sobs * list avote)) : Prop :=
+  match l with
+  | [] => True
+  | (o, cur, vs) :: r => P_hstep12 q prev cast o cur vs /\ P_history12 q cur (next_store q cast o) r
+  end.
+
+Definition Pb_hstep12 (q : oparams) (prev : sobs) (cast : list avote) (o : op) (cur : sobs) (vs : list avote) : bool :=
+  Pb_step q prev (eff_op cast o) cur && (so_panic cur || leqb avote_eqb vs (next_store q cast o)).
+
+Fixpoint Pb_history12 (q : oparams) (prev : sobs) (cast : list avote) (l : list (op * sobs * list avote)) : bool :=
+  match l with
+  | [] => true
+  | (o, cur, vs) :: r => Pb_hstep12 q prev cast o cur vs && Pb_history12 q cur (next_store q cast o) r
+  end.
+
+Lemma Pb_history12_sound q : forall l prev cast, Pb_history12 q prev cast l = true -> P_history12 q prev cast l.
+Proof.
+  induction l as [|[[o cur] vs] l IH]; intros prev cast H; [exact I|].
+  cbn [Pb_history12 P_history12] in *. apply andb_true_iff in H as [H1 H2].
+  split; [|apply IH; exact H2].
+  unfold Pb_hstep12 in H1. apply andb_true_iff in H1 as [A B]. split; [apply Pb_step_sound; exact A|].
+  intro Hp. rewrite Hp in B. simpl in B. apply (leqb_eq avote_eqb avote_eqb_eq). exact B.
+Qed.
